@@ -36,6 +36,10 @@ CHECKS = {
    text="Every goroutine-backed construct (the C01 set plus Chain, MergeSlices, MergeSliceIterators, BufferedChannel, dt.Map and adt.Map iterators) is stopped by a separate task at a tape-chosen step in one of the modes exhaust / Close / cancel / Close-then-cancel / cancel-then-Close / Close twice, with per-consumer cut points 0..n+1, so that the stop races in-flight sends. At quiescence: the stop action returned, every consumer's ReadOne returned, a finite input ended in io.EOF, and the simulator's task table shows no live task spawned from a go statement inside tychoish/fun.",
    note="Callback-style constructs and BufferedChannel (a bare channel has no Close) are stopped by cancellation only. Abandoning an output without Close is documented as leaking and is not generated.",
    tech=TECH + "; stop-mode x cut-point fault matrix, quiescence + task-table leak oracle"),
+ "C03": dict(cat="fault_enumeration", ref="§2 C03",
+   text="ProcessParallel, ParallelForEach, itertool.Worker, Map and GenerateParallel under all 8 ContinueOnError/ContinueOnPanic/IncludeContextExpirationErrors combinations x ExcludedErrors {none, the injected error, an unrelated one} x default or erc.Collector collection x 1-4 workers, with one or two injected failures of kind plain / wrapped / panic(error|string|struct) / ErrIteratorSkip / io.EOF / returned context.Canceled at tape-chosen item positions and optional real cancellation, under seeded schedules. Oracle on the call log and the result R: nothing escapes as a panic; every reportable failure satisfies errors.Is(R, it) (ErrRecoveredPanic for panics); EOF, skip, context errors (unless included) and excluded errors are never reported; R is nil iff nothing reportable happened; continue modes process every item exactly once; in abort modes the failing worker processes nothing further and, counted from the moment its goroutine has exited, at most workers-1 further items start (GenerateParallel: a 300-call input is not drained).",
+   note="The matrix is sampled per run from the tape (quick) rather than enumerated cell by cell; the evidence file reports which (construct, options, fault) cells were reached as distinct_states. When the consumer of a Map/Generate output is itself cancelled, failures that happen after its Close cannot be in the result and are not required. ErrCurrentOpAbort is not injected (the statement does not classify it).",
+   tech=TECH + "; callback fault matrix x WorkerGroupConf, error-contract oracle on the call log"),
 }
 NA = [
  ("C16", "dt.List/dt.Stack are single-goroutine data structures: the property quantifies over operation sequences only; there is no schedule, clock, fault or interleaving for a simulator to own (pure model-based testing target)."),
